@@ -19,7 +19,7 @@ PROPERTY_ID = 'C08'
 RULE = ('(in) base bundles over all CRC-type assignments of primary/extension/payload blocks x every single-bit flip of the '
         'encoding (exhaustive for bundles <= 200 octets, sampled above) x bursts of <= 16/32 bits inside CRC-protected blocks, '
         'including flips of the CRC-type and CRC-value fields; a mutant is checked when it alters an octet of a block that carried a CRC and the independent decoder '
-        'finds the result malformed or CRC-failing (others are skipped and counted). (out) seeded random bundles sent locally, forwarded, fragmented, and '
+        'finds the result malformed or CRC-failing (others are skipped and counted). (huge) payload blocks of 64 KiB-200 KB: flips at and around every 64 KiB multiple of the block offset, the same bundles sent and forwarded. (out) seeded random bundles sent locally, forwarded, fragmented, and '
         'status reports. Non-trivial = mutant judged invalid by the oracle and pushed into the real agent, or an output with '
         'at least one CRC-bearing block; distinct = distinct mutant byte string / distinct output byte string.')
 ASSUMPTIONS = [
@@ -29,7 +29,7 @@ ASSUMPTIONS = [
 ]
 DECIDING = ['bp.encoding.blocks:AbstractBlock.check_crc', 'bp.encoding.blocks:AbstractBlock.update_crc',
             'bp.encoding.bundle:Bundle.check_all_crc', 'bp.encoding.bundle:Bundle.update_all_crc', 'bp.agent:Agent.recv_bundle']
-REQUIRED_OBS = ['in_mutants_checked', 'in_crc_mismatch_mutants', 'out_checked', 'out_crc_blocks']
+REQUIRED_OBS = ['in_mutants_checked', 'in_crc_mismatch_mutants', 'out_checked', 'out_crc_blocks', 'huge_blocks', 'huge_outputs']
 
 NODE = 'dtn://me/'
 
@@ -86,6 +86,9 @@ def cases(tier, seed):
     nbig = 240 if thorough else 8
     for idx in range(nbig):
         out.append(dict(id='big-%d' % idx, kind='big', seed=seed * 31337 + idx, count=800 if thorough else 250))
+    # blocks longer than 64 KiB / 128 KiB (both directions)
+    for idx in range(24 if thorough else 4):
+        out.append(dict(id='huge-%d' % idx, kind='huge', idx=idx, seed=seed * 4099 + idx, count=120 if thorough else 40))
     nout = 240 if thorough else 8
     for idx in range(nout):
         out.append(dict(id='out-%d' % idx, kind='out', seed=seed * 7919 + idx, count=120 if thorough else 40))
@@ -325,6 +328,55 @@ def run_case(case):
             mut[pos] ^= (1 << rng.randrange(8))
             mutants.append(bytes(mut))
         violations += _run_mutants(enc, mutants, obs, classes)
+        sample = dict(kind=kind, base_len=len(enc), mutants=len(mutants))
+    elif kind == 'huge':
+        from bp.util import BundleContainer
+        rng = random.Random(case['seed'])
+        idx = case['idx']
+        plen = [65536, 70000, 131100, 65500 + 7 * idx, 200000][idx % 5] + (rng.randrange(40) if idx >= 5 else 0)
+        pay_crc = 1 + idx % 2
+        payload = bytes(rng.randrange(256) for _ in range(1024)) * (plen // 1024 + 1)
+        pri = dict(version=7, flags=bpv7.FLAG_REQ_DELIVERY, crc_type=1 + (idx // 2) % 2, dest='dtn://me/huge', src='dtn://src/h', report_to='dtn://rep/x',
+                   create_time=5000 + idx, seqno=idx, lifetime=100000, frag_offset=None, total_adu_len=None, crc=None)
+        bundle = dict(primary=pri, blocks=[dict(type=7, num=2, flags=0, crc_type=pay_crc, data=b'\x18\x64', crc=None),
+                                           dict(type=1, num=1, flags=0, crc_type=pay_crc, data=payload[:plen], crc=None)])
+        enc = bpv7.encode(bundle)
+        # (in) flips at and around the 64 KiB multiples of the payload block's own offsets, and seeded random ones
+        (lo, hi, _crc_type) = _protected_spans(enc)[-1]
+        positions = set()
+        for mult in (1, 2, 3):
+            for delta in (-2, -1, 0, 1, 2):
+                pos = lo + mult * 65536 + delta
+                if lo <= pos < hi:
+                    positions.add(pos)
+        positions.update((lo, lo + 1, hi - 1, hi - 5))
+        while len(positions) < case['count']:
+            positions.add(rng.randrange(lo, hi))
+        mutants = []
+        for pos in sorted(positions):
+            mut = bytearray(enc)
+            mut[pos] ^= (1 << rng.randrange(8))
+            mutants.append(bytes(mut))
+        violations += _run_mutants(enc, mutants, obs, classes)
+        obs['huge_blocks'] = obs.get('huge_blocks', 0) + 1
+        # (out) the same bundle sent locally and forwarded
+        for mode in ('local', 'forward'):
+            sim, node = _fresh_node()
+            out_bundle = dict(primary=dict(pri, dest='dtn://far/x' if mode == 'local' else 'dtn://other/x', src='dtn://me/app' if mode == 'local' else 'dtn://src/h'),
+                              blocks=bundle['blocks'])
+            if mode == 'local':
+                try:
+                    node.send(BundleContainer(gen.to_real(out_bundle, typed=False)))
+                except Exception:  # pylint: disable=broad-except
+                    obs['out_send_raised'] += 1
+            else:
+                node.recv(bpv7.encode(out_bundle))
+            sim.settle(5000)
+            for data in node.cl.datas():
+                classes.add(hash(data) & 0xFFFFFFFFFFFF)
+                if len(data) > 65536:
+                    obs['huge_outputs'] = obs.get('huge_outputs', 0) + 1
+                violations += check_output(data, obs, mode + '-huge')
         sample = dict(kind=kind, base_len=len(enc), mutants=len(mutants))
     elif kind == 'out':
         violations += _run_out(case, obs, classes)
